@@ -1066,3 +1066,114 @@ def explore(db, setup, cfg=None, max_paths=20000):
                                       pc=[], writes=[], calls=[], unmodelled=[], trace=[], machine=m, roots={}))
             break
     return results, {"runs": n, "infeasible": n_infeasible}
+
+
+# ---------------------------------------------------------------------------------------------
+# interval view of float residuals (D1 for float->int conversions): bounds come from the order
+# store's facts against literals and from integer bounds; evaluated over the reals with Fractions.
+
+from fractions import Fraction as _Fr
+import math as _math
+
+
+def _atom_bounds(m, n):
+    lo, hi = None, None  # (value, strict)
+    o = m.order
+    if n not in o.idx:
+        return (-_math.inf, _math.inf)
+    blo, bhi = -_math.inf, _math.inf
+    for j in o.lits:
+        ln = o.nodes[j]
+        v = F.litval(ln)
+        if v != v or abs(v) == _math.inf:
+            continue
+        r = o.get(n, ln)
+        if "u" in r:
+            continue
+        if "<" not in r:      # n >= v
+            blo = max(blo, _Fr(v))
+        if ">" not in r:      # n <= v
+            bhi = min(bhi, _Fr(v))
+    return (blo, bhi)
+
+
+def float_bounds(m, n, memo=None):
+    """closed interval [lo, hi] (Fractions or +-inf) containing the real value of residual n"""
+    if memo is None:
+        memo = {}
+    if n in memo:
+        return memo[n]
+    k = n[0]
+    inf = _math.inf
+    if k == "lit":
+        v = F.litval(n)
+        r = (-inf, inf) if v != v else ((_Fr(v), _Fr(v)) if abs(v) != inf else (v, v))
+    elif k == "i2f":
+        lo, hi = m.ienv.bounds(Lin.from_key(n[1]))
+        r = (_Fr(lo) if abs(lo) != INF else lo, _Fr(hi) if abs(hi) != INF else hi)
+    elif k == "atom":
+        r = _atom_bounds(m, n)
+    elif k == "neg":
+        a = float_bounds(m, n[1], memo)
+        r = (-a[1], -a[0])
+    elif k in ("add", "sub"):
+        a, b = float_bounds(m, n[1], memo), float_bounds(m, n[2], memo)
+        if k == "sub":
+            b = (-b[1], -b[0])
+        r = (a[0] + b[0] if -inf not in (a[0], b[0]) else -inf, a[1] + b[1] if inf not in (a[1], b[1]) else inf)
+    elif k == "mul":
+        a, b = float_bounds(m, n[1], memo), float_bounds(m, n[2], memo)
+        if any(abs(x) == inf for x in a + b):
+            r = (-inf, inf)
+        else:
+            c = [x * y for x in a for y in b]
+            r = (min(c), max(c))
+    elif k == "div":
+        a, b = float_bounds(m, n[1], memo), float_bounds(m, n[2], memo)
+        if any(abs(x) == inf for x in a + b) or b[0] <= 0 <= b[1]:
+            r = (-inf, inf)
+        else:
+            c = [x / y for x in a for y in b]
+            r = (min(c), max(c))
+    elif k == "fn":
+        name = n[1]
+        if name in ("ceil", "floor"):
+            a = float_bounds(m, n[2], memo)
+            f = _math.ceil if name == "ceil" else _math.floor
+            r = (_Fr(f(a[0])) if abs(a[0]) != inf else a[0], _Fr(f(a[1])) if abs(a[1]) != inf else a[1])
+        elif name in ("max", "min"):
+            a, b = float_bounds(m, n[2], memo), float_bounds(m, n[3], memo)
+            g = max if name == "max" else min
+            r = (g(a[0], b[0]), g(a[1], b[1]))
+        elif name == "abs":
+            a = float_bounds(m, n[2], memo)
+            if a[0] >= 0:
+                r = a
+            elif a[1] <= 0:
+                r = (-a[1], -a[0])
+            else:
+                r = (0, max(-a[0], a[1]))
+        elif name == "sqrt":
+            r = (0, inf)
+        elif name == "signum":
+            r = (-1, 1)
+        else:
+            r = (-inf, inf)
+    else:
+        r = (-inf, inf)
+    # refine with direct facts about this node
+    if n in m.order.idx and k != "lit":
+        d = _atom_bounds(m, n)
+        r = (max(r[0], d[0]), min(r[1], d[1]))
+    memo[n] = r
+    return r
+
+
+def _float_int_bounds(self, node):
+    lo, hi = float_bounds(self, node)
+    ilo = -INF if lo == -_math.inf else _math.floor(lo + _Fr(1, 2)) if not isinstance(lo, float) else -INF
+    ihi = INF if hi == _math.inf else _math.floor(hi + _Fr(1, 2)) if not isinstance(hi, float) else INF
+    return (ilo, ihi)
+
+
+Machine.float_int_bounds = _float_int_bounds
